@@ -166,7 +166,7 @@ def particle_species(
             particle_list[i] = [
                 elem
                 for elem in particle_list[i]
-                if (int(elem.pdg) == pdg_list and not np.isnan(elem.pdg))
+                if (not np.isnan(elem.pdg) and int(elem.pdg) == pdg_list)
             ]
 
     elif isinstance(pdg_list, (list, np.ndarray, tuple)):
@@ -176,7 +176,7 @@ def particle_species(
             particle_list[i] = [
                 elem
                 for elem in particle_list[i]
-                if (int(elem.pdg) in pdg_list and not np.isnan(elem.pdg))
+                if (not np.isnan(elem.pdg) and int(elem.pdg) in pdg_list)
             ]
 
     else:
@@ -236,7 +236,7 @@ def remove_particle_species(
             particle_list[i] = [
                 elem
                 for elem in particle_list[i]
-                if (int(elem.pdg) != pdg_list and not np.isnan(elem.pdg))
+                if (not np.isnan(elem.pdg) and int(elem.pdg) != pdg_list)
             ]
 
     elif isinstance(pdg_list, (list, np.ndarray, tuple)):
@@ -246,7 +246,7 @@ def remove_particle_species(
             particle_list[i] = [
                 elem
                 for elem in particle_list[i]
-                if (int(elem.pdg) not in pdg_list and not np.isnan(elem.pdg))
+                if (not np.isnan(elem.pdg) and int(elem.pdg) not in pdg_list)
             ]
 
     else:
